@@ -13,7 +13,12 @@ Decided (wiring of the RFC 8032 data flow, as canonical dataflow expressions ove
   tables     group order limbs M = L and Barrett constant MU = floor(2^512 / L) (64-bit backend)
   muladd     muladd(a,b,c) = add(mul(a,b), c)
   padding    the SHA-512 block padding predicate used by all of the above (shared rule with C01)
-Not decided: group law, scalar reduction arithmetic, SHA-512 compression."""
+  length     the SHA-512 length field (128-bit big-endian bit count after standard_padding(16)), shared with C01
+  decode     Fe::from_bytes ignores bit 255 in both backends (exchange decodes the peer key with it)
+  sc32       32-bit backend: reduce_from_wide_bytes and muladd read consecutive 21-bit digits, are congruent to the input /
+             a*b+c modulo L as polynomial identities (all carries cancel, every fold uses L's digits), keep every
+             intermediate within i64 and end in reduced digits packed into consecutive output bits; clamp / sign rules on K2
+Not decided: group law, scalar64 Barrett arithmetic as numbers, SHA-512 compression."""
 import re
 
 from .. import mir, pred, rules, ssa, termbits
@@ -21,7 +26,7 @@ from ..mir import fmt, walk
 from ..spec import curve
 
 EXPLANATION = __doc__
-TECHNIQUE = "canonical dataflow expressions of resolved calls (wiring), dominance ordering of buffer writes vs. hashing, known-bits of the clamp, evaluated constants vs. oracle"
+TECHNIQUE = "interval abstract interpretation over ssa terms with exact carry/remainder relations and trace partitioning on carries (inductive limb-bound invariants, overflow-assert discharge); limb-polynomial congruence modulo L; bit provenance; canonical dataflow expressions of resolved calls (wiring), dominance ordering of buffer writes vs. hashing, known-bits of the clamp, evaluated constants vs. oracle"
 
 H = "Context512::finalize(Context512::update(Context512::update(Sha512::new(),%s),%s))"
 H1 = "Context512::finalize(Context512::update(Sha512::new(),%s))"
